@@ -208,7 +208,8 @@ func (c *conn) send(ctx context.Context, msg *kmip.RequestMessage) error {
 		return err
 	}
 	tx := c.tx.Load().(chan txMsg)
-	errCh := make(chan error)
+	// Buffered so that the writeloop never blocks handing over its result to a sender that gave up.
+	errCh := make(chan error, 1)
 	select {
 	case tx <- txMsg{msg: msg, err: errCh}:
 		select {
